@@ -12,6 +12,7 @@ import Driver.Iface
 import Driver.Socks
 import Driver.Bpf
 import Driver.Limiter
+import Driver.E2E
 import Driver.HttpProbe
 import Driver.Engine
 import Driver.Pipe
@@ -55,6 +56,8 @@ def dispatch (line : String) : String :=
   | "lim" :: rest => (handleLim rest).getD "BAD-CASE\t0"
   | "limconc" :: rest => (handleLimConc rest).getD "BAD-CASE\t0"
   | "limwrap" :: rest => (handleLimWrap rest).getD "BAD-CASE\t0"
+  | "limwire" :: rest => (Driver.E2E.handleLimWire rest).getD "BAD-CASE\t0"
+  | "e2edelay" :: rest => (Driver.E2E.handleE2EDelay rest).getD "BAD-CASE\t0"
   | "limrt" :: rest => (handleLimRT rest).getD "BAD-CASE\t0"
   | "engine" :: rest => (handleEngine rest).getD "BAD-CASE\t0"
   | "exitdelay" :: rest => (handleExitDelay rest).getD "BAD-CASE\t0"
